@@ -698,6 +698,15 @@ func macroIncludeFile(exp Exporter) {
 			}
 			return
 		}
+		for _, f := range ctx.incFiles {
+			if f == filename {
+				// a file that (directly or not) includes itself
+				if ctx.Process {
+					ctx.Errorf("%s: recursive inclusion", filename)
+				}
+				return
+			}
+		}
 		err := processFile(exp, filename)
 		if err != nil {
 			ctx.Error(err)
